@@ -62,8 +62,14 @@ def explore(item, ctx, seed, easy_menu, clauses, quarter=True):
     """
     from score_analysis import Scores
 
-    blocks = [tuple(x) for x in item["blocks"]]
-    if item["grid"] == "mixed":
+    blocks = [tuple(x) for x in item.get("blocks", [])]
+    if "ladder" in item:
+        # scale ladder: one much larger deterministic dataset (see ordertypes.ladder_dataset)
+        pos, neg = ot.ladder_dataset(item["ladder"], item.get("tie_free", True), seed)
+        pos, neg = sorted(pos), sorted(neg)
+        pin, nin = np.array(pos[::-1]), np.array(neg[::-1])
+        item = dict(item, blocks=f"ladder n={item['ladder']} tie_free={item.get('tie_free', True)}", grid="ladder")
+    elif item["grid"] == "mixed":
         # integer-dtype positives, float-dtype negatives with non-integral values where the order type allows
         pos, neg = [], []
         for i, (a, c) in enumerate(blocks):
@@ -140,6 +146,9 @@ def explore(item, ctx, seed, easy_menu, clauses, quarter=True):
                         targets = list(EXTREME_TARGETS)
                     else:
                         targets = sorted(ot.target_alphabet(N, seed, quarter))
+                        if len(targets) > 400:  # scale ladder: thin the alphabet, keep both ends and the out-of-range values
+                            step_ = len(targets) // 300
+                            targets = sorted(set(targets[:12] + targets[::step_] + targets[-12:]))
                     tarr = np.array(targets, dtype=float)
                     case_m = dict(base_case, metric=metric)
                     res = {}
@@ -272,5 +281,6 @@ def explore(item, ctx, seed, easy_menu, clauses, quarter=True):
                             if ok and not np.array_equal(np.asarray(ta_), res[method]):
                                 ctx.fail("alias-identical", dict(case_m, method=method), observed=ta_,
                                          expected=res[method])
-    ctx.sample({"blocks": item["blocks"], "grid": item["grid"], "pos": pos, "neg": neg,
+    ctx.sample({"blocks": item["blocks"], "grid": item["grid"], "pos": pos if len(pos) < 12 else pos[:6] + ["..."],
+                "neg": neg if len(neg) < 12 else neg[:6] + ["..."],
                 "metrics": METRICS, "methods": METHODS, "easy_menu": easy_menu})
